@@ -54,6 +54,10 @@ static std::vector<Rej> catalogue() {
     std::vector<Rej> v;
     auto add = [&](const std::string &n, std::function<void(File &)> fn) { v.push_back(Rej{n, fn}); };
     const std::vector<std::pair<std::string, std::string>> badnames = {{"empty name", ""}, {"name with slash", "a/b"}};
+    // calls the library is known to accept today come first (an accepted call interrupts the batch of rejected ones)
+    add("Section::createProperty(unsupported type)", [](File &f) { X0(f).createProperty("fresh_p", DataType::Int8); });
+    add("Block::createDataArray(DataType::Opaque)", [](File &f) { B0(f).createDataArray("fresh_a", "t", DataType::Opaque, NDSize({2})); });
+    add("Property::unit(empty)", [](File &f) { P0(f).unit(""); });
 
     // ---- creates: duplicate / invalid name / empty type ----
     add("File::createBlock(duplicate name)", [](File &f) { f.createBlock(B0(f).name(), "t"); });
@@ -93,9 +97,7 @@ static std::vector<Rej> catalogue() {
     add("Section::createProperty(duplicate name)", [](File &f) { X0(f).createProperty(P0(f).name(), Variant(1.0)); });
     add("Section::createProperty(duplicate name, dtype overload)", [](File &f) { X0(f).createProperty(P0(f).name(), DataType::Int32); });
     add("Section::createProperty(mixed value types)", [](File &f) { X0(f).createProperty("fresh_p", std::vector<Variant>{Variant(1.0), Variant("s")}); });
-    add("Section::createProperty(unsupported type)", [](File &f) { X0(f).createProperty("fresh_p", DataType::Int8); });
     add("Block::createDataArray(DataType::Nothing)", [](File &f) { B0(f).createDataArray("fresh_a", "t", DataType::Nothing, NDSize({2})); });
-    add("Block::createDataArray(DataType::Opaque)", [](File &f) { B0(f).createDataArray("fresh_a", "t", DataType::Opaque, NDSize({2})); });
     add("Block::createDataFrame(duplicate column, adjacent)", [](File &f) { B0(f).createDataFrame("fresh_f", "t", std::vector<Column>{{"a", "", DataType::Double}, {"a", "", DataType::Int32}}); });
     add("Block::createDataFrame(duplicate column, not adjacent)", [](File &f) { B0(f).createDataFrame("fresh_f", "t", std::vector<Column>{{"a", "", DataType::Double}, {"b", "", DataType::Int32}, {"a", "", DataType::Int64}}); });
     add("Block::createDataFrame(unsupported column type)", [](File &f) { B0(f).createDataFrame("fresh_f", "t", std::vector<Column>{{"a", "", DataType::Double}, {"b", "", DataType::Int8}}); });
@@ -150,7 +152,6 @@ static std::vector<Rej> catalogue() {
     add("Tag::units(non-SI)", [](File &f) { T0(f).units({"foo"}); });
     add("MultiTag::units(non-SI)", [](File &f) { M0(f).units({"mV", "bar"}); });
     add("Section::repository(empty)", [](File &f) { X0(f).repository(""); });
-    add("Property::unit(empty)", [](File &f) { P0(f).unit(""); });
     add("Property::definition(empty)", [](File &f) { P0(f).definition(""); });
     add("Property::values(vector of another type)", [](File &f) { Property p = P0(f); p.values({p.dataType() == DataType::String ? Variant(1.5) : Variant("s")}); });
     add("Property::values(mixed types)", [](File &f) {
@@ -216,16 +217,33 @@ int main(int argc, char **argv) {
     E.add_seed("R3", ops::build_seed_r3);
     std::vector<Rej> cat = catalogue();
 
-    // run the whole catalogue in one state; returns after the first entry that left a trace re-materialising for the rest
+    // Run the whole catalogue in one state.  Rejected calls are batched: one observation after the batch; only if it
+    // differs from the one taken before (or an accepted call interrupts the batch) each member is re-run in isolation
+    // on a freshly materialised state to attribute the change.
     auto run_catalogue = [&](const ex::State &st, int level) {
         ops::Session se;
         bool dirty = true;
         std::string pre;
         std::string rbase = "--seed=" + st.seed + " --level=" + std::to_string(level) + " --history=" + (st.hist.empty() ? std::string("none") : ex::Explorer::hist_arg(st.hist));
-        std::vector<int> thrown;
+        std::vector<int> batch, all_rejected;
+        auto isolate = [&](const std::vector<int> &ks) {
+            for (int k : ks) {
+                E.materialize(st, se);
+                std::string p0 = E.canon(se.file), what;
+                vf::set_clock(E.clock0 + 700);
+                std::string outcome = vf::guarded([&] { cat[k].run(se.file); }, &what);
+                std::string p1 = E.canon(se.file);
+                if (!outcome.empty() && p1 != p0)
+                    vf::violation("C08|" + cat[k].name + "|rejected with " + outcome + "|state changed|" + [&] {
+                                      std::string d = obs::diff(p0, p1, 1); size_t p = d.find_first_not_of("+- "); return p == std::string::npos ? std::string("?") : d.substr(p, d.find(' ', p) - p); }(),
+                                  "the call threw (" + what + ") but the observable state differs; state " + ex::hist_str(E.alpha, st),
+                                  obs::diff(p0, p1) + "\nREPLAY " + rbase + " --entry=" + std::to_string(k));
+                se.close();
+            }
+        };
         for (size_t k = 0; k < cat.size(); k++) {
             if (vf::opt.extra.count("entry") && atoi(vf::opt.extra["entry"].c_str()) != (int)k) continue;
-            if (dirty) { E.materialize(st, se); pre = E.canon(se.file); dirty = false; thrown.clear(); }
+            if (dirty) { E.materialize(st, se); pre = E.canon(se.file); dirty = false; batch.clear(); }
             vf::set_clock(E.clock0 + 700);
             std::string what, outcome;
             try { cat[k].run(se.file); outcome = "accepted"; }
@@ -236,47 +254,82 @@ int main(int argc, char **argv) {
             vf::count("calls");
             vf::distinct("outcomes", cat[k].name + "|" + outcome);
             if (outcome == "accepted") {
-                // not a C08 matter (only counted); the state may have changed, start over for the next entry
+                // not a C08 matter (only counted); the state may have changed: the batch so far is checked in isolation
                 vf::count("calls_accepted");
-                dirty = true; se.close();
+                se.close();
+                std::vector<int> b = batch;
+                isolate(b);
+                dirty = true;
                 continue;
             }
             vf::count("calls_rejected");
             vf::distinct("entries_rejected", cat[k].name);
             vf::distinct("rejected_in_state", vf::fnv(cat[k].name + "#" + std::to_string(st.key)));
-            thrown.push_back((int)k);
-            std::string post = E.canon(se.file);
-            if (post != pre) {
-                vf::violation("C08|" + cat[k].name + "|rejected with " + outcome + "|state changed|" + [&] {
-                                  // kind of the first differing entity line
-                                  std::string d = obs::diff(pre, post, 1); size_t p = d.find_first_not_of("+- "); return p == std::string::npos ? std::string("?") : d.substr(p, d.find(' ', p) - p); }(),
-                              "the call threw (" + what + ") but the observable state differs; state " + ex::hist_str(E.alpha, st),
-                              obs::diff(pre, post) + "\nREPLAY " + rbase + " --entry=" + std::to_string(k));
-                dirty = true; se.close();
-            }
+            batch.push_back((int)k);
+            all_rejected.push_back((int)k);
         }
         if (!dirty) {
-            // cumulative persistence check: after all rejected calls of this state, close and reopen
-            vf::set_clock(E.clock0 + 800);
-            se.close();
-            se.open(FileMode::ReadOnly);
-            std::string ro = E.canon(se.file);
-            se.close();
-            vf::count("reopen_checks");
-            if (ro != pre) {
-                // attribute: replay each rejected entry alone
-                for (int k : thrown) {
-                    E.materialize(st, se);
-                    std::string p0 = E.canon(se.file);
-                    vf::guarded([&] { cat[k].run(se.file); });
-                    se.close(); se.open(FileMode::ReadOnly);
-                    std::string p1 = E.canon(se.file); se.close();
-                    if (p1 != p0)
-                        vf::violation("C08|" + cat[k].name + "|rejected|state changed after reopen", "state " + ex::hist_str(E.alpha, st), obs::diff(p0, p1) + "\nREPLAY " + rbase + " --entry=" + std::to_string(k));
+            std::string post = E.canon(se.file);
+            vf::count("observations_compared");
+            if (post != pre) { se.close(); std::vector<int> b = batch; isolate(b); }
+            else {
+                // persistence: after all rejected calls of this batch, close and reopen
+                vf::set_clock(E.clock0 + 800);
+                se.close();
+                se.open(FileMode::ReadOnly);
+                std::string ro = E.canon(se.file);
+                se.close();
+                vf::count("reopen_checks");
+                if (ro != pre) {
+                    for (int k : batch) {
+                        E.materialize(st, se);
+                        std::string p0 = E.canon(se.file);
+                        vf::guarded([&] { cat[k].run(se.file); });
+                        se.close(); se.open(FileMode::ReadOnly);
+                        std::string p1 = E.canon(se.file); se.close();
+                        if (p1 != p0)
+                            vf::violation("C08|" + cat[k].name + "|rejected|state changed after reopen", "state " + ex::hist_str(E.alpha, st), obs::diff(p0, p1) + "\nREPLAY " + rbase + " --entry=" + std::to_string(k));
+                    }
                 }
             }
         }
         se.close();
+        if (vf::opt.extra.count("entry")) return;
+        // ---- ReadOnly pass: on a read-only copy every call of the entity alphabet that throws must leave no trace either ----
+        {
+            E.materialize(st, se);
+            std::string pre_rw = E.canon(se.file);
+            se.close();
+            se.open(FileMode::ReadOnly);
+            // first pass: all calls, one observation at the end; only if that differs, a second pass attributes the change
+            for (int pass = 0; pass < 2; pass++) {
+                std::string cur = pre_rw;
+                bool per_op = pass == 1;
+                for (size_t op = 0; op < E.alpha.size(); op++) {
+                    vf::set_clock(E.clock0 + 900 + (long)op);
+                    std::string outcome;
+                    try { E.alpha[op].run(se.file); outcome = "returned"; }
+                    catch (const NotEnabled &) { outcome = "notenabled"; }
+                    catch (const std::exception &e) { outcome = "throws"; }
+                    catch (...) { outcome = "throws"; }
+                    if (outcome != "throws") continue;
+                    if (pass == 0) { vf::count("calls"); vf::count("calls_rejected"); vf::count("readonly_calls_rejected"); }
+                    if (!per_op) continue;
+                    std::string post = E.canon(se.file);
+                    if (post != cur) {
+                        vf::violation("C08|" + E.alpha[op].name + "|rejected on a ReadOnly file|state changed in the session",
+                                      "the call threw but later reads in the same ReadOnly session see a different state; state " + ex::hist_str(E.alpha, st),
+                                      obs::diff(cur, post) + "\nREPLAY " + rbase);
+                        cur = post;
+                    }
+                }
+                if (pass == 0) {
+                    if (E.canon(se.file) == pre_rw) break;
+                    se.close(); se.open(FileMode::ReadOnly);   // fresh session for the attributing pass
+                }
+            }
+            se.close();
+        }
     };
 
     if (vf::opt.extra.count("history")) {   // replay of one (state, entry)
@@ -319,8 +372,8 @@ int main(int argc, char **argv) {
         }
     };
     corpus("E", 1, thorough ? 4 : 3);
-    corpus("R1", 2, 1);
-    corpus("R2", 2, 1);
+    corpus("R1", 2, thorough ? 1 : 0);
+    corpus("R2", 2, thorough ? 1 : 0);
     corpus("R3", 2, thorough ? 1 : 0);
     vf::note("catalogue_size", std::to_string(cat.size()));
     { std::vector<std::string> names; for (auto &c : cat) names.push_back(c.name); vf::note("catalogue", vf::jvecs(names)); }
